@@ -119,7 +119,67 @@ Theorem C17_valid_order_perm : forall disc order, valid_orderb disc order = true
 Proof. exact valid_order_perm. Qed.
 Print Assumptions C17_valid_order_perm.
 
+(** a model with prior weight exactly zero gets probability zero, wherever it is listed (the
+    other models' entries are then given by [C17_compare_proportion] / [C17_compare_clean]) *)
+Theorem C17_compare_zero_weight : forall ms order p i m, compare_models ms order = Some p ->
+  nth_error ms i = Some m -> m_w m == 0 -> nth i p 0 == 0.
+Proof. exact compare_zero_weight. Qed.
+Print Assumptions C17_compare_zero_weight.
+
+(** ** (e) listing order of the summaries and storage of the arrays
+
+    The model is a function of the numeric values; a run of the code on the same numbers stored in
+    another dtype / layout is compared with the same model result ([a_agree]).  Listing the summaries
+    in another order: same rows, same adjusted values. *)
+Theorem C17_finite_indices_listing : forall perm X theta k,
+  Forall (fun row => length row = k) X -> is_perm k perm = true -> length X = length theta ->
+  finite_indices (permute_cols perm X) theta = finite_indices X theta.
+Proof. exact finite_indices_permute. Qed.
+Print Assumptions C17_finite_indices_listing.
+
+Theorem C17_listing_invariant : forall perm summ obs theta b,
+  Forall (fun row => length row = length obs) summ -> length b = length obs ->
+  is_perm (length obs) perm = true -> length summ = length theta ->
+  Forall2 Qeq
+    (adjust_param (input_variables (permute_cols perm summ) (permute perm obs None)) theta (permute perm b 0))
+    (adjust_param (input_variables summ obs) theta b).
+Proof. exact listing_invariant. Qed.
+Print Assumptions C17_listing_invariant.
+
+Theorem C17_is_perm_sound : forall k perm, is_perm k perm = true -> Permutation perm (seq 0 k).
+Proof. exact is_perm_Permutation. Qed.
+Print Assumptions C17_is_perm_sound.
+
+(** what the storage tags validated per run mean *)
+Theorem C17_storable_int_sound : forall t v, t = I64 \/ t = I32 -> storable t v = true ->
+  exists (z : Z) (q : Q), v = Some q /\ q == inject_Z z.
+Proof. exact storable_int_sound. Qed.
+Print Assumptions C17_storable_int_sound.
+
+Theorem C17_storable_bool_sound : forall v, storable B8 v = true ->
+  exists q, v = Some q /\ (q == 0 \/ q == 1).
+Proof. exact storable_bool_sound. Qed.
+Print Assumptions C17_storable_bool_sound.
+
 (** ** non-vacuity *)
+Example C17_example_listing :
+  let summ := [[Some 1; Some 2]; [None; Some 0]; [Some (1#2); Some (-1)]; [Some 3; Some 1]] in
+  let obs := [Some (1#2); Some (-1)] in
+  let theta := [Some 2; Some 5; Some 7; None] in
+  is_perm 2 [1; 0]%nat = true
+  /\ adjust_param (input_variables (permute_cols [1; 0]%nat summ) (permute [1; 0]%nat obs None)) theta
+                  (permute [1; 0]%nat [2; -1] 0) = [4; 7]
+  /\ storable I64 (Some 3) = true /\ storable I64 (Some (1#2)) = false /\ storable B8 (Some 1) = true
+  /\ storable F32 (Some (1#4)) = true /\ storable F32 (Some (1#3)) = false.
+Proof. vm_compute. repeat split; reflexivity. Qed.
+
+Example C17_example_zero_weight :
+  let ms := [ {| m_disc := [1; 3; 3]; m_nsim := 10; m_w := 0 |};
+              {| m_disc := [0; 2; 5; 1]; m_nsim := 20; m_w := 3#4 |};
+              {| m_disc := [4; 0; 7]; m_nsim := 5; m_w := 1#4 |} ] in
+  compare_models ms [3; 8; 0; 6; 4; 1; 2; 7; 5; 9]%nat = Some [0; 3#7; 4#7].
+Proof. vm_compute. reflexivity. Qed.
+
 Example C17_example_adjust :
   let X := input_variables [[Some 1; Some 2]; [None; Some 0]; [Some (1#2); Some (-1)]; [Some 3; Some 1]]
                            [Some (1#2); Some (-1)] in
@@ -141,7 +201,7 @@ Proof.
 Qed.
 
 (** ** (c) affine invariance, matrix level (mathcomp, any field) *)
-From mathcomp Require Import all_ssreflect all_algebra.
+From mathcomp Require Import all_ssreflect all_fingroup all_algebra.
 From Elfi Require Import Num.AdjustMx Proofs.C17_AdjustMx.
 Import GRing.Theory.
 Local Open Scope ring_scope.
@@ -189,6 +249,23 @@ Theorem C17_adjust_affine_invariant : forall (F : fieldType) (n k : nat) (S : 'M
   adjusted theta (regressors (S *m A + ones F n *m c) (o *m A + c)) b' = adjusted theta (regressors S o) b.
 Proof. move=> F n k S o theta A c b0 b b0' b'; exact: adjust_affine_invariant. Qed.
 Print Assumptions C17_adjust_affine_invariant.
+
+(** listing the summaries in another order (columns of the simulated and of the observed summaries
+    permuted alike): the fit is the re-listed fit, and every adjusted value is unchanged *)
+Theorem C17_fit_summary_perm : forall (F : fieldType) (n k : nat) (s : 'S_k) (X : 'M[F]_(n, k))
+  (theta : 'cV[F]_n) (b0 : 'M[F]_1) (b : 'cV[F]_k),
+  is_fit X theta b0 b -> is_fit (col_perm s X) theta b0 (row_perm s b).
+Proof. move=> F n k s X theta b0 b; exact: fit_summary_perm. Qed.
+Print Assumptions C17_fit_summary_perm.
+
+Theorem C17_adjust_summary_perm : forall (F : fieldType) (n k : nat) (s : 'S_k) (S : 'M[F]_(n, k))
+  (o : 'rV[F]_k) (theta : 'cV[F]_n) (b0 : 'M[F]_1) (b : 'cV[F]_k) (b0' : 'M[F]_1) (b' : 'cV[F]_k),
+  gram (design (regressors S o)) \in unitmx ->
+  is_fit (regressors S o) theta b0 b ->
+  is_fit (regressors (col_perm s S) (col_perm s o)) theta b0' b' ->
+  adjusted theta (regressors (col_perm s S) (col_perm s o)) b' = adjusted theta (regressors S o) b.
+Proof. move=> F n k s S o theta b0 b b0' b'; exact: adjust_summary_perm. Qed.
+Print Assumptions C17_adjust_summary_perm.
 
 (** over an ordered field "full column rank" is exactly the Gram hypothesis used above *)
 Theorem C17_full_rank_gram_unit : forall (R : realFieldType) (n p : nat) (D : 'M[R]_(n, p)),
